@@ -66,9 +66,12 @@ def c09_reproduce(ctx, m, tag):
 
 def c09_selftest(ctx, behs):
     """corrupted predictions must be noticed: (a) two entries swapped in a directory replay, (b) a sequence number
-    changed, (c) an entry dropped from a GetEntriesFrom result"""
+    changed, (c) an entry dropped from a GetEntriesFrom result.  Taken on behaviours that conform when uncorrupted.
+    Returns False if no conforming behaviour was available (then the run must have reported disagreements)."""
     done = set()
     for beh in behs:
+        if not wal_replay(ctx, [beh], ctx.seed, 0, 'selftest-base')[0].get('ok'):
+            continue
         for i, st in enumerate(beh):
             if 'swap' not in done and st['o'] == 'disk' and len(st['rep']) >= 2:
                 b2 = json.loads(json.dumps(beh))
@@ -94,8 +97,8 @@ def c09_selftest(ctx, behs):
                 done.add('from')
             if len(done) == 3:
                 ctx.notes['binding_selftest'] = 'swapped entries, a changed sequence number and a dropped GetEntriesFrom entry were each noticed at the corrupted step'
-                return
-    raise Infra('binding self-test: no suitable behaviour (%s done)' % sorted(done))
+                return True
+    return False
 
 
 def c09_corpus():
@@ -114,8 +117,9 @@ def check_C09(ctx):
     n = 250 if ctx.quick() else 2500
     behs = tlc_sim(ctx, 'GEN_Wal', 'GEN_Wal.cfg', n, 60, ctx.seed * 7 + 3, timeout=600, tag='gen-wal')
     behs = c09_corpus() + behs
-    c09_selftest(ctx, behs[-30:])
     ok, bad = wal_replay_all(ctx, behs, 'c09', chunks=5 if ctx.quick() else 14)
+    if not c09_selftest(ctx, behs[-40:]) and not bad:
+        raise Infra('binding self-test: no suitable behaviour')
     sweeps = 0
     if not ctx.quick():
         sweep = tlc_sim(ctx, 'GEN_Wal', 'GEN_Wal_sweep.cfg', 1, 1000, ctx.seed, timeout=900, tag='gen-wal-sweep')
@@ -163,8 +167,10 @@ def check_C09(ctx):
 
 
 # ======================================================================================= C10
-KEYS = ['k1', 'k2', 'k3', 'k4', 'k5', 'k6', 'k7', 'k9', 'forged']
-POST = [{'op': 'put', 'k': 'k9', 'v': 'v90'}, {'op': 'del', 'k': 'k1'}, {'op': 'put', 'k': 'k4', 'v': 'v91'}]
+KEYS = ['k1', 'k2', 'k3', 'k4', 'k5', 'k6', 'k7', 'k8', 'k9', 'forged']
+# written after the first recovery.  The engine re-uses sequence numbers of entries lost behind the damage, so these entries
+# must differ from every entry of the log in key or value to be told apart: k8/k9 and the values v8x/v9x occur nowhere else
+POST = [{'op': 'put', 'k': 'k9', 'v': 'v90'}, {'op': 'put', 'k': 'k8', 'v': 'v80'}, {'op': 'del', 'k': 'k8'}, {'op': 'put', 'k': 'k4', 'v': 'v91'}]
 
 
 def P(k, v, size=0, fill='rand'):
@@ -188,10 +194,13 @@ def fixed_logs(interior):
                                        B(P('k4', 'v5'), D('k1')), P('k7', 'v70', 32750), P('k3', 'v7')]]}
     # a value made of images of valid log records, placed so that a reader that skips 32 KB from the end of record 1 lands on one
     emb = {'name': 'embedded', 'files': [[P('k1', 'v1')],
-                                         [P('k2', 'v2'), D('k1'), P('k5', 'v50', 60000, 'aligned:1'), P('k3', 'v3'), P('k6', 'v60', 40000, 'images'), P('k2', 'v6')]]}
-    for s in (small, frag, emb):
+                                         [P('k2', 'v2'), D('k1'), P('k5', 'v50', 60000, 'aligned:1'), P('k3', 'v3'), P('k6', 'v60', 40000, 'images'), P('k2', 'v6'), P('k7', 'v70', 70000, 'chunkentry'), D('k3')]]}
+    # the whole log in ONE file (nothing else for replay to fall back on), ending in a batch
+    single = {'name': 'single', 'files': [[P('k1', 'v1'), P('k2', 'v2'), D('k1'), P('k3', 'v3', 300), B(D('k2'), P('k5', 'v4'), P('k1', 'v5'))]]}
+    logs = [small, single, frag, emb]
+    for s in logs:
         s.update({'post': POST, 'keys': KEYS, 'interior': interior})
-    return [small, frag, emb]
+    return logs
 
 
 def random_logs(seed, n, interior):
@@ -214,7 +223,7 @@ def random_logs(seed, n, interior):
             if r < 0.65:
                 return B(*[P(rng.choice(KEYS[:7]), val()) if rng.random() < 0.7 else D(rng.choice(KEYS[:7])) for _ in range(rng.randint(2, 3))])
             size = rng.choice([32750, 32768, 33000, 40000, 65600, 70000])
-            return P(k, val(), size, rng.choice(['rand', 'rand', 'images']))
+            return P(k, val(), size, rng.choice(['rand', 'rand', 'images', 'chunkentry']))
         nfiles = rng.randint(1, 3)
         files = [[op() for _ in range(rng.randint(1, 3))] for _ in range(nfiles - 1)] + [[op() for _ in range(rng.randint(3, 7))]]
         logs.append({'name': 'rnd%d' % i, 'files': files, 'post': POST, 'keys': KEYS, 'interior': interior})
@@ -360,7 +369,7 @@ def c10_selftest(ctx, loglines):
             base = r
             break
     if base is None:
-        raise Infra('binding self-test: no suitable outcome')
+        return
     muts = []
     m = json.loads(json.dumps(base)); m['d1'] = m['d1'][1:]; muts.append(('prefix1', m))
     m = json.loads(json.dumps(base)); m['d1'] = m['d1'] + [0]; muts.append(('subseq1', m))
@@ -381,14 +390,13 @@ def c10_selftest(ctx, loglines):
 def check_C10(ctx):
     ctx.assumptions += ['one damage per run (a cut of the newest file, or one altered byte in any file)',
                         'a 32-bit checksum collision is not considered: a record read with an altered length is taken to fail verification',
-                        'files larger than 2 KB: every header byte, the first 24 and last 4 payload bytes of every record and a seeded sample of the payload interior are damaged, not every byte',
+                        'files larger than 4 KB: every header byte, the first 24 and last 4 payload bytes of every record and a seeded sample of the payload interior are damaged, not every byte',
                         'process-level damage model: what is on disk is exactly the damaged copy; no concurrent writer',
                         'entries behind the damage may or may not come back (the specification allows both); entries of later files likewise']
     tlc_mc(ctx, 'MC_WalReader', 'MC_WalReader_quick.cfg' if ctx.quick() else 'MC_WalReader_thorough.cfg', timeout=280 if ctx.quick() else 1500, tag='mc-walreader')
-    interior = 10 if ctx.quick() else 30
+    interior = 40 if ctx.quick() else 120
     specs = fixed_logs(interior)
-    if not ctx.quick():
-        specs += random_logs(ctx.seed, 27, 12)
+    specs += random_logs(ctx.seed, 2 if ctx.quick() else 56, 16 if ctx.quick() else 40)
     ctx.kvh()
     all_lines, owners, per_log = [], [], {}
     with cf.ThreadPoolExecutor(max_workers=WORKERS) as ex:
@@ -403,7 +411,19 @@ def check_C10(ctx):
                 owners.append((s, r))
     ctx.traces += sum(1 for o in owners if o[1] is not None)
     ctx.evaluations = ctx.traces
-    rej = judge(ctx, all_lines, 'c10')
+    # TLC judges the outcomes in chunks of whole logs (a chunk starts with its "log" line), a few chunks at a time
+    chunks, cur = [], []
+    for i, (s, r) in enumerate(owners):
+        if r is None and len(cur) >= 12000:
+            chunks.append(cur)
+            cur = []
+        cur.append(i)
+    chunks.append(cur)
+    rej = {}
+    with cf.ThreadPoolExecutor(max_workers=4) as ex:
+        for ci, part in enumerate(ex.map(lambda a: judge(ctx, [all_lines[i] for i in a[1]], 'c10-%d' % a[0]), list(enumerate(chunks)))):
+            for k, v in part.items():
+                rej[chunks[ci][k]] = v
     for s, r in owners:
         if r is not None:
             d = r['dmg']
@@ -412,11 +432,11 @@ def check_C10(ctx):
     ctx.notes['damage_classes'] = sorted({r['dmg']['kind'] for s, r in owners if r is not None})
     ctx.notes['outcomes_rejected'] = len(rej)
     ctx.samples = [{k: r[k] for k in ('log', 'fault', 'd1', 'd2', 'st2')} for s, r in owners[1:] if r is not None][:3]
-    for name in ('small', 'frag', 'embedded'):
+    for name in ('small', 'frag', 'embedded', 'single'):
         if name in per_log and 'binding_selftest' not in ctx.notes:
             c10_selftest(ctx, per_log[name])
-    if 'binding_selftest' not in ctx.notes:
-        raise Infra('binding self-test: every candidate outcome is itself rejected')
+    if 'binding_selftest' not in ctx.notes and not rej:
+        raise Infra('binding self-test: no suitable outcome')
     # group the rejected outcomes: one representative per (log, damage class, retyped-to, reasons)
     groups = {}
     for i in sorted(rej):
@@ -449,7 +469,7 @@ def check_C10(ctx):
                    'KevoWalReader (reader at record grain, every damage descriptor, reopen + append + second replay) is model-checked exhaustively for '
                    'the bounds under mc_runs. Fault enumeration on the real code: logs written by the real writer (small entries, a batch, entries of 2-4 '
                    'fragments, values made of record images); for the newest file EVERY truncation offset and per byte position the values low-bit-flipped / '
-                   '0x00 / 0xFF (type bytes: also every other type code) - every byte for files up to 2 KB, for larger files every header byte, the first 24 '
+                   '0x00 / 0xFF (type bytes: also every other type code) - every byte for files up to 4 KB, for larger files every header byte, the first 24 '
                    'and last 4 payload bytes of each record and a seeded interior sample; older files: altered header / entry-header bytes. Per fault: '
                    'ReplayWALDir, engine open, every key read, 3 further writes, close, ReplayWALDir, second open, every key read, files compared. Each '
                    'outcome is one trace line judged by TLC with the operators of KevoWalReader. traces = outcomes judged; distinct_nontrivial = distinct '
